@@ -429,7 +429,7 @@ static int disasm_xtensa_le(
           case XTENSA_OP_FR_AS:
             as = (opcode >> 8) & 0xf;
             fr = (opcode >> 12) & 0xf;
-            snprintf(instruction, length, "%s a%d, a%d", table_xtensa[n].instr, fr, as);
+            snprintf(instruction, length, "%s f%d, a%d", table_xtensa[n].instr, fr, as);
             return 3;
           default:
             strcpy(instruction, "<error>");
@@ -920,7 +920,7 @@ static int disasm_xtensa_be(
           case XTENSA_OP_FR_AS:
             as = (opcode >> 12) & 0xf;
             fr = (opcode >> 8) & 0xf;
-            snprintf(instruction, length, "%s f%d, f%d", table_xtensa[n].instr, fr, as);
+            snprintf(instruction, length, "%s f%d, a%d", table_xtensa[n].instr, fr, as);
             return 3;
           default:
             strcpy(instruction, "<error>");
